@@ -2103,10 +2103,11 @@ class VCGen:
     def exit_normal(s, st, v, t, line):
         c = s.cur
         if c.get('calls_exactly') is not None and not c.get('_inline'):
-            # a wiring function: on every path that returns normally, exactly these contracted callees were called, in this order.
-            # A different sequence means the contract no longer describes this function (undecided) -- it is not by itself a
-            # refutation of anything a property states, so it is never reported as a refuted obligation
-            if tuple(c['calls_exactly']) != tuple(st.calls):
+            # a wiring function: on every path that returns normally, exactly these contracted callees were called, each this many
+            # times (the ORDER of independent calls is not the contract's business: what must precede what is carried by the facts the
+            # call_asserts demand at each call). A different collection means the contract no longer describes this function
+            # (undecided) -- it is not by itself a refutation of anything a property states, so it is never reported as refuted
+            if sorted(c['calls_exactly']) != sorted(st.calls):
                 raise ContractError(f"{c['name']}: a returning path applies the callees {list(st.calls)}, the wiring contract expects {list(c['calls_exactly'])}")
             s.oblige(st, 'calls-exactly', BoolVal(True), line, 'post')
         rt = c.get('result')
